@@ -11,7 +11,9 @@
 
     What is proved here, about the Gallina transcription [generate] of cmd/gql-client-gen/main.go
     (repaired tree) and the model [decode_op] of the encoding/json behaviour the output relies on:
-    - [env S d] is the envelope above as a boolean predicate (ClientGenSpec.v);
+    - [env S d] is the envelope above as a boolean predicate (ClientGenSpec.v); a response key may
+      be selected several times in one selection set (field merging): "distinct ignoring letter
+      case" constrains different keys only;
     - the two known findings are explicit exclusions: [excl_member_clash] (a response key and a
       fragment of one selection set derive the same Go field name) and [excl_decl_clash] (two
       generated declarations get the same identifier, or a schema / fragment name is used where
@@ -22,6 +24,11 @@
       [decl_names_ok] / [idents_ok] / no malformed tags are exactly what [excl_decl_clash] = false
       grants, they are not derived).  It is not a theorem about the Go type checker; the real
       go/types run is observed by the correspondence check on every case.
+      OPEN (stated, evaluated on every case of every run, NOT proved): a condition on the names of
+      schema and document alone suffices for the second exclusion,
+        forall S d, decl_safe S d = true -> excl_decl_clash S d = false
+      ([decl_safe] in ClientGenSpec.v); missing: an invariant on the generator's struct counter
+      (sel<T1><n1> = sel<T2><n2> only if a composite type name ends in a digit).
     - "decoding succeeds with every selected leaf": for every response tree [w] that conforms to
       the operation (any concrete object types, nulls at nullable positions, any list lengths),
       [decode_op] of the JSON of [w] returns a value, for all sufficiently large fuel, whose leaves
@@ -29,7 +36,7 @@
 From Coq Require Import List NArith Bool String.
 Open Scope string_scope.
 From ApiFu Require Import Base.Sexp Gen.GoTypes Gen.ClientGenModel Gen.DecodeModel Gen.ClientGenSpec
-     Gen.ClientGenMain Gen.ClientGenWitness.
+     Gen.ClientGenMain Gen.ClientGenWitness Gen.ClientGenClauses.
 Import ListNotations.
 
 (** the generator accepts every operation of the envelope and its output is well formed *)
@@ -37,6 +44,15 @@ Theorem C20_gen_wf_partial : forall S d,
   env S d = true -> excl_member_clash S d = false -> excl_decl_clash S d = false ->
   exists p, generate no_quirks S (doc_valid S d) d = GOk p /\ wf_program p = true.
 Proof. exact gen_accepts_wf. Qed.
+
+(** the same, clause by clause (definitions and the Go rule each clause stands for: ClientGenClauses.v):
+    distinct struct members and well-targeted UnmarshalJSON statements, declared references,
+    forwarders only to types with the method, identifiers *)
+Theorem C20_gen_wf_clauses_partial : forall S d,
+  env S d = true -> excl_member_clash S d = false -> excl_decl_clash S d = false ->
+  exists p, generate no_quirks S (doc_valid S d) d = GOk p /\
+            cl_struct_members p /\ cl_references p /\ cl_method_forwarders p /\ cl_identifiers p.
+Proof. exact gen_wf_clauses. Qed.
 
 (** decoding any response shaped by a named operation yields exactly the selected leaves *)
 Theorem C20_gen_decodes : forall S d,
@@ -78,6 +94,13 @@ Theorem C20_refuted_before_fix_union_condition :
     (fun p => negb (leaves_agree p ex_schema (hd opU (d_ops docU)) "E" respU)) = true.
 Proof. exact refuted_before_fix_union. Qed.
 
+Theorem C20_refuted_before_fix_repeated_key :
+  in_envelope ex_schema docM = true /\
+  conforms ex_schema (hd opM (d_ops docM)) respM = true /\
+  generated_and (generate quirk_merge ex_schema (doc_valid ex_schema docM) docM)
+    (fun p => negb (leaves_agree p ex_schema (hd opM (d_ops docM)) "M" respM)) = true.
+Proof. exact refuted_before_fix_field_merge. Qed.
+
 (** the known findings: without the exclusions the statement about [wf_program] is false of the
     current code *)
 Theorem C20_refuted_member_name_clash :
@@ -91,11 +114,13 @@ Theorem C20_refuted_decl_name_clash :
 Proof. exact refuted_decl_name_clash. Qed.
 
 Print Assumptions C20_gen_wf_partial.
+Print Assumptions C20_gen_wf_clauses_partial.
 Print Assumptions C20_gen_decodes.
 Print Assumptions C20_gen_invalid_no_output.
 Print Assumptions C20_refuted_before_fix_27.
 Print Assumptions C20_refuted_before_fix_28.
 Print Assumptions C20_refuted_before_fix_29.
 Print Assumptions C20_refuted_before_fix_union_condition.
+Print Assumptions C20_refuted_before_fix_repeated_key.
 Print Assumptions C20_refuted_member_name_clash.
 Print Assumptions C20_refuted_decl_name_clash.
